@@ -71,7 +71,14 @@ def static_T():
                 found = True
             if tag in slot.get("values", []) and slot.get("extension_values", {}).get(tag) == ext:
                 found = True
-        obs.append(static_ob(oid, found, "%s: tag %s is not tied to capability %r in args_definition" % (cname, tag, ext)))
+        ob = static_ob(oid, found, "%s: tag %s is not tied to capability %r in args_definition" % (cname, tag, ext))
+        if not found:
+            ob.native = common.table_replay(cmd, drop_ext=ext)
+        obs.append(ob)
+    for ob in obs:
+        if ob.status == "refuted" and ob.native is None:
+            parts = ob.oid.split(".")
+            ob.native = common.table_replay(parts[2].split(":")[0], drop_ext=parts[-1])
     return obs
 
 
